@@ -1032,7 +1032,9 @@ impl<'r> Eng<'r> {
                 if !names_something && !allow.0 && f.eff_limit() > allow.1 {
                     for now in now0..=now1 {
                         let maxtime = f.eff_until().min(now);
-                        if maxtime < f.eff_since() || maxtime - f.eff_since() >= allow.2 {
+                        // the window's span in seconds (an empty or inverted window spans nothing and is covered
+                        // by any positive allowance)
+                        if maxtime.saturating_sub(f.eff_since()) >= allow.2 {
                             justified = true;
                         }
                     }
